@@ -463,6 +463,9 @@ int read_fasta( struct in_buffer* b,struct msa** m)
                                                 resize_msa_seq(seq_ptr);
                                         }
                                 }else if(ispunct((int)line[i])){
+                                        if(!seq_ptr){
+                                                ERROR_MSG("Encountered a sequence before encountering it's name");
+                                        }
                                         seq_ptr->gaps[seq_ptr->len]++;
                                 }
                         }
